@@ -198,6 +198,17 @@ fn run_inner(c: &Case) -> Result<u64, String> {
     let fwd: Vec<String> = gates[0].path_iter().ok_or("no path_iter on the first endpoint")?.map(|c| c.endpoint.path().to_string()).collect();
     let mut bwd: Vec<String> = gates[k - 1].path_iter().ok_or("no path_iter on the last endpoint")?.map(|c| c.endpoint.path().to_string()).collect();
     bwd.reverse();
+    // every connection of the walk knows the gate it came from
+    for (i, con) in gates[0].path_iter().unwrap().enumerate() {
+        if con.prev_hop().map(|g| g.path().to_string()) != Some(all[i].clone()) {
+            return Err(format!("chain {all:?}: hop #{i} of the walk from the first end reports prev_hop() = {:?}, it leaves {}", con.prev_hop().map(|g| g.path()), all[i]));
+        }
+    }
+    for (i, con) in gates[k - 1].path_iter().unwrap().enumerate() {
+        if con.prev_hop().map(|g| g.path().to_string()) != Some(all[k - 1 - i].clone()) {
+            return Err(format!("chain {all:?}: hop #{i} of the walk from the last end reports prev_hop() = {:?}, it leaves {}", con.prev_hop().map(|g| g.path()), all[k - 1 - i]));
+        }
+    }
     if fwd != all[1..] || bwd != all[..k - 1] {
         return Err(format!("chain {all:?}: walked from the first end {fwd:?}, from the other end (reversed) {bwd:?} - not the mirror image of each other / of the chain"));
     }
